@@ -4,6 +4,7 @@ import (
 	"bytes"
 	"fmt"
 	"io"
+	"sync"
 
 	"github.com/cloudwego/gopkg/bufiox"
 	"github.com/cloudwego/gopkg/protocol/thrift"
@@ -240,6 +241,17 @@ func c16Stream(cs *drv.Case, lens []int) {
 
 func monC16(c *drv.Ctx) {
 	defer thrift.SetSpanCache(false)
+	concurrent := func(cs *drv.Case) {
+		span := cs.Idx%3 != 2
+		thrift.SetSpanCache(span)
+		defer thrift.SetSpanCache(false)
+		c16Concurrent(cs, span)
+	}
+	if c.Flavour == "race" && !c.Thorough() {
+		// quick tier: the race build is there for the one stage that has goroutines
+		c.Stage("concurrent-decoders", 12, false, concurrent)
+		return
+	}
 	for _, span := range []bool{false, true} {
 		span := span
 		name := "span-cache-off"
@@ -334,6 +346,26 @@ func monC16(c *drv.Ctx) {
 			cs.C.Obs("structs attacked", 1)
 		})
 	}
+	// (3a) far more values than any allocator block holds, all of one size class and all kept: megabytes of values
+	// shorter than 128 bytes (the bulk of what a decoder sees), of 128..255 and of 1..2 KiB. A value handed out
+	// when a block was fresh must still be intact after that block has been used up and replaced several times.
+	longClasses := [][2]int{{0, 127}, {1, 16}, {128, 255}, {1024, 2047}}
+	c.Stage("kept-across-many-blocks", int64(len(longClasses))*2, true, func(cs *drv.Case) {
+		span := cs.Idx%2 == 1
+		cl := longClasses[cs.Idx/2]
+		thrift.SetSpanCache(span)
+		defer thrift.SetSpanCache(false)
+		total := c.Pick(5<<20, 24<<20)
+		if c.Slow() {
+			total = 3 << 20
+		}
+		c16Long(cs, cl[0], cl[1], int(total), span)
+	})
+
+	// (3a') several goroutines decode at the same time with the allocator on (it is shared by all of them): each
+	// keeps its values, overwrites its own byte slices in place, and finds them as it left them after the join
+	c.Stage("concurrent-decoders", c.Pick(6, 40), false, concurrent)
+
 	// (3b) the allocator switch is flipped between two decodes (never concurrently): values obtained
 	// under either setting must stay intact and independent afterwards
 	c.Stage("toggle-between-decodes", c.Pick(300, 3000), false, func(cs *drv.Case) {
@@ -449,4 +481,186 @@ func staticBytesIntact() bool {
 		}
 	}
 	return true
+}
+
+// c16Val is the content of value i of stream g: position-dependent, so that no snapshot needs to be kept.
+func c16Val(dst []byte, g, i int) {
+	for j := range dst {
+		dst[j] = byte(g*101 + i*7 + (i>>8)*13 + j*31 + (j >> 8) + 1)
+	}
+}
+
+func c16ValIs(b []byte, g, i int, flipped bool) bool {
+	x := byte(0)
+	if flipped {
+		x = 0xFF
+	}
+	for j := range b {
+		if b[j] != byte(g*101+i*7+(i>>8)*13+j*31+(j>>8)+1)^x {
+			return false
+		}
+	}
+	return true
+}
+
+// c16Long decodes about total bytes of values with lengths lo..hi from a reused input buffer and keeps them all.
+func c16Long(cs *drv.Case, lo, hi, total int, span bool) {
+	r := cs.R
+	type kept struct {
+		b []byte
+		s string
+		i int
+	}
+	var ks []kept
+	in := make([]byte, 4+hi)
+	verify := func(when string) bool {
+		for _, k := range ks {
+			ok := false
+			if k.b != nil {
+				ok = c16ValIs(k.b, 0, k.i, false)
+			} else {
+				ok = c16ValIs([]byte(k.s), 0, k.i, false)
+			}
+			if !ok {
+				cs.Fail("decoded-value-changed", M{"what": "value kept across allocator blocks", "when": when, "span_cache": span}, M{"value_index": k.i, "values_decoded": len(ks), "len": len(k.b) + len(k.s),
+					"message": fmt.Sprintf("value #%d of %d (lengths %d..%d) is no longer what was decoded %s", k.i, len(ks), lo, hi, when)})
+				return false
+			}
+		}
+		return true
+	}
+	done, next := 0, total/6
+	for i := 0; done < total; i++ {
+		l := lo + r.Intn(hi-lo+1)
+		w := ref.U32(in[:0], uint32(l))
+		w = w[:4+l]
+		c16Val(w[4:], 0, i)
+		if i%2 == 0 {
+			b, n, err := thrift.Binary.ReadBinary(w)
+			if err != nil || n != 4+l || !c16ValIs(b, 0, i, false) || len(b) != l {
+				cs.Fail("decode-wrong", M{"api": "Binary.ReadBinary", "span_cache": span}, M{"len": l, "err": errString(err), "value_index": i})
+				return
+			}
+			if l > 0 {
+				ks = append(ks, kept{b: b, i: i})
+			}
+		} else {
+			s, n, err := thrift.Binary.ReadString(w)
+			if err != nil || n != 4+l || len(s) != l || !c16ValIs([]byte(s), 0, i, false) {
+				cs.Fail("decode-wrong", M{"api": "Binary.ReadString", "span_cache": span}, M{"len": l, "err": errString(err), "value_index": i})
+				return
+			}
+			if l > 0 {
+				ks = append(ks, kept{s: s, i: i})
+			}
+		}
+		for j := range w {
+			w[j] = 0xDD // the input buffer is reused right away
+		}
+		done += l + 1
+		if done >= next {
+			if !verify("after further decodes") {
+				return
+			}
+			next += total / 6
+		}
+	}
+	if !verify("at the end of the run") {
+		return
+	}
+	cs.Desc = M{"span_cache": span, "lengths": fmt.Sprintf("%d..%d", lo, hi), "values_kept": len(ks), "bytes": done}
+	cs.Count(true, "long", span, lo, hi)
+	cs.C.Obs("values kept across more than 4 MiB of further decodes", int64(len(ks)))
+	cs.C.Obs("bytes decoded in runs", int64(done))
+}
+
+// c16Concurrent: G goroutines decode values of the same few size classes at the same time.
+func c16Concurrent(cs *drv.Case, span bool) {
+	G := 3 + cs.R.Intn(6)
+	iters := 6000
+	if cs.C.Slow() {
+		iters = 1500
+	}
+	classes := [][2]int{{128, 255}, {1, 127}, {256, 511}, {4096, 8191}}
+	cl := classes[cs.R.Intn(len(classes))]
+	type kept struct {
+		b []byte
+		s string
+		i int
+	}
+	type gres struct {
+		ks   []kept
+		fail string
+	}
+	res := make([]gres, G)
+	seeds := make([]int64, G)
+	for g := range seeds {
+		seeds[g] = cs.R.Int63()
+	}
+	var wg sync.WaitGroup
+	start := make(chan struct{})
+	for g := 0; g < G; g++ {
+		g := g
+		wg.Add(1)
+		go func() {
+			defer wg.Done()
+			defer func() {
+				if p := recover(); p != nil {
+					res[g].fail = fmt.Sprintf("panic: %v", p)
+				}
+			}()
+			r := drv.NewRand(seeds[g])
+			in := make([]byte, 4+cl[1])
+			<-start
+			for i := 0; i < iters; i++ {
+				l := cl[0] + r.Intn(cl[1]-cl[0]+1)
+				w := ref.U32(in[:0], uint32(l))[:4+l]
+				c16Val(w[4:], g+1, i)
+				if i%3 != 0 {
+					b, _, err := thrift.Binary.ReadBinary(w)
+					if err != nil || len(b) != l || !c16ValIs(b, g+1, i, false) {
+						res[g].fail = fmt.Sprintf("ReadBinary #%d returned other bytes than its input (err=%v)", i, err)
+						return
+					}
+					for j := range b {
+						b[j] ^= 0xFF // the value is this goroutine's own
+					}
+					res[g].ks = append(res[g].ks, kept{b: b, i: i})
+				} else {
+					s, _, err := thrift.Binary.ReadString(w)
+					if err != nil || len(s) != l || !c16ValIs([]byte(s), g+1, i, false) {
+						res[g].fail = fmt.Sprintf("ReadString #%d returned other bytes than its input (err=%v)", i, err)
+						return
+					}
+					res[g].ks = append(res[g].ks, kept{s: s, i: i})
+				}
+			}
+		}()
+	}
+	close(start)
+	wg.Wait()
+	n := 0
+	for g := range res {
+		if res[g].fail != "" {
+			cs.Fail("decoded-value-changed", M{"what": "concurrent decoders", "span_cache": span}, M{"goroutine": g, "goroutines": G, "message": res[g].fail})
+			return
+		}
+		for _, k := range res[g].ks {
+			ok := false
+			if k.b != nil {
+				ok = c16ValIs(k.b, g+1, k.i, true)
+			} else {
+				ok = c16ValIs([]byte(k.s), g+1, k.i, false)
+			}
+			if !ok {
+				cs.Fail("decoded-values-share-memory", M{"what": "concurrent decoders", "span_cache": span}, M{"goroutine": g, "goroutines": G, "value_index": k.i, "lengths": fmt.Sprint(cl),
+					"message": fmt.Sprintf("value #%d of goroutine %d is not what that goroutine left in it: another goroutine's decode wrote into it", k.i, g)})
+				return
+			}
+			n++
+		}
+	}
+	cs.Desc = M{"span_cache": span, "goroutines": G, "values_each": iters, "lengths": fmt.Sprint(cl)}
+	cs.Count(true, "conc", span, G, cl, cs.Idx)
+	cs.C.Obs("values decoded concurrently and re-checked after the join", int64(n))
 }
